@@ -49,7 +49,8 @@ Definition C05_locked_frozen_full_statement : Prop := forall fuel s o s' out r,
   Inv s -> in_scope o -> step fuel s o = Some (s', out) -> (forall n k, o <> OMakeMemmap n k) -> (forall n, o <> OMemmap n) ->
   flag_true (hp s) r = true -> live s r = true -> no_mm (hp s) r -> tree_unchanged (hp s) (hp s') r.
 (* witness (replayed against the implementation by the harness): [ONewTd; OSet 0 "a" VLeaf; OLock 0] then OExclude 0 ["a"] *)
-Theorem C05_locked_frozen_refuted_D8 : ~ C05_locked_frozen_full_statement.
+(* (stated under the model switch: once the fix for D8 is in /repo and fixed_D8 := true, the hypothesis is false and the theorem is void) *)
+Theorem C05_locked_frozen_refuted_D8 : fixed_D8 = false -> ~ C05_locked_frozen_full_statement.
 Proof. exact locked_frozen_refuted_D8. Qed.
 Print Assumptions C05_locked_frozen_refuted_D8.
 
@@ -70,7 +71,7 @@ Definition C05_member_cannot_unlock_full_statement : Prop := forall fuel s q n s
   Inv s -> child (hp s) q n -> flag_true (hp s) q = true -> live s q = true ->
   step fuel s (OUnlock n) = Some (s', out) -> out = Raised ELock.
 (* witness: [ONewTd; OSet 0 "n" VNewTd; OMemmap 0] then OUnlock 1 succeeds *)
-Theorem C05_member_cannot_unlock_refuted_D7 : ~ C05_member_cannot_unlock_full_statement.
+Theorem C05_member_cannot_unlock_refuted_D7 : fixed_D7 = false -> ~ C05_member_cannot_unlock_full_statement.
 Proof. exact member_cannot_unlock_refuted_D7. Qed.
 Print Assumptions C05_member_cannot_unlock_refuted_D7.
 
@@ -166,6 +167,9 @@ Theorem C05_guard_table_core :
            ("_lazy.py", "LazyStackedTensorDict", "insert"); ("_lazy.py", "LazyStackedTensorDict", "append")] = true.
 Proof. exact guard_table_core. Qed.
 Print Assumptions C05_guard_table_core.
+
+(* the two switches are off: the refutations above are not vacuous today *)
+Example C05_switches_off : fixed_D8 = false /\ fixed_D7 = false. Proof. split; reflexivity. Qed.
 
 (* ---- non-vacuity: concrete heaps meeting the hypotheses --------------------------------------------------------------------- *)
 (* a three-level tree with a shared node under two locked roots and a lazy stack of nested members *)
